@@ -701,7 +701,7 @@ func evalStack(sstack []any) []any {
 			sstack[i] = false
 			if list, ok := right.([]any); ok {
 				for _, ev := range list {
-					if sameValue(left, ev) {
+					if sameValue(left, normalize(ev)) {
 						sstack[i] = true
 						break
 					}
